@@ -24,6 +24,10 @@ func c06Gated(n, m int, batch, info bool, optConc int, b Bounds) *Scenario {
 // restart: the server first serves another connection that is stopped while one call executes, further
 // calls wait for a slot and a notification is queued; the judged traffic runs on the second connection.
 func c06GatedX(n, m int, batch, info bool, optConc int, restart bool, b Bounds) *Scenario {
+	return c06GatedY(n, m, batch, info, optConc, restart, false, b)
+}
+
+func c06GatedY(n, m int, batch, info bool, optConc int, restart, cancelRunning bool, b Bounds) *Scenario {
 	var tokens []string
 	if batch {
 		tokens = []string{"[" + strings.Repeat("g", m) + "]"}
@@ -44,6 +48,9 @@ func c06GatedX(n, m int, batch, info bool, optConc int, restart bool, b Bounds) 
 	}
 	if restart {
 		name += " after a restart (first connection stopped with calls executing and waiting)"
+	}
+	if cancelRunning {
+		name += " with CancelRequest of an executing call that keeps executing"
 	}
 	return &Scenario{
 		Name:   name,
@@ -84,6 +91,21 @@ func c06GatedX(n, m int, batch, info bool, optConc int, restart bool, b Bounds) 
 				vs.GoNamed("controller", func() {
 					for _, ms := range h.msgs {
 						peer.Send([]byte(ms.JSON))
+					}
+					if cancelRunning {
+						// an executing handler is cancelled but keeps executing (it ignores its context until its gate
+						// opens): it still occupies its slot
+						vs.AwaitQuiescence()
+					pick:
+						for _, ms := range h.msgs {
+							for _, mem := range ms.Members {
+								if mem.Kind == 'g' && h.entered[mem.Method] {
+									vs.Note("cancel-running", mem.ID)
+									srv.CancelRequest(mem.ID)
+									break pick
+								}
+							}
+						}
 					}
 					opened := map[string]bool{}
 					for {
@@ -489,6 +511,7 @@ func c06Scenarios(tier string) []*Scenario {
 		out = append(out, c06Gated(n, 2, false, true, n, Bounds{b.P - 1, -1, 0}))
 	}
 	out = append(out, c06Cancel(true, b), c06Cancel(false, b))
+	out = append(out, c06GatedY(1, 2, false, false, 1, false, true, Bounds{1, -1, 0}), c06GatedY(2, 3, true, false, 2, false, true, Bounds{1, -1, 0}))
 	if tier == "quick" {
 		out = append(out, c06GatedX(1, 2, false, false, 1, true, Bounds{1, 1, 0}), c06GatedX(2, 3, true, false, 2, true, Bounds{1, 1, 0}))
 	} else {
